@@ -7,7 +7,7 @@ package control
 // install into the kernel maps:
 //   - builder.rules as raw bytes of struct bpfMatchSet (the port-range bytes come from the real
 //     bpfPortRange.Encode, lifted from control/bpf_utils.go by tools/c02.py because that file is excluded by the
-//     dae_stub_ebpf tag: c02LiftedEncode / c02LiftedParsePortRange / c02LiftedCidrToBpfLpmKey / c02LiftedSlot*),
+//     dae_stub_ebpf tag: c02LiftedEncode / c02LiftedParsePortRange / c02LiftedCidrToBpfLpmKey / c02LiftedSlotPar / c02LiftedSlotSer),
 //   - the ring allocation (real reserveLpmRingSlots after a history of earlier reloads), the rewritten kernel rules
 //     (real rewriteKernRulesWithRingLpmIndex), the LPM keys per trie, the routing_map keys and the meta length,
 //   - per probe the domain_routing_map entry (real buildDomainRoutingOwnerSnapshot over the real domain matcher's
@@ -66,22 +66,23 @@ type c02Res struct {
 }
 
 type c02Result struct {
-	Stage   string         `json:"stage,omitempty"`
-	Err     string         `json:"err,omitempty"`
-	Layout  map[string]int `json:"layout,omitempty"`
-	Msets   []c01Mset      `json:"msets"`
-	Tries   [][]string     `json:"tries"`
-	DomSets []c01DomSet    `json:"domsets"`
-	Raw     []string       `json:"raw"`   // builder.rules, 24 bytes each (before the ring rewrite)
-	Kern    []string       `json:"kern"`  // rules written to routing_map
-	RKeys   []uint32       `json:"rkeys"` // their keys
-	MetaLen uint32         `json:"metalen"`
-	Alloc   uint32         `json:"alloc"`
-	Next    uint32         `json:"next"` // globalNextLpmIndex afterwards
-	Slots   []uint32       `json:"slots"`
-	Keys    [][]string     `json:"keys"` // per trie: struct lpm_key bytes (20 each)
-	KernErr string         `json:"kernerr,omitempty"`
-	Results []c02Res       `json:"results"`
+	Stage     string         `json:"stage,omitempty"`
+	Err       string         `json:"err,omitempty"`
+	Layout    map[string]int `json:"layout,omitempty"`
+	Msets     []c01Mset      `json:"msets"`
+	Tries     [][]string     `json:"tries"`
+	DomSets   []c01DomSet    `json:"domsets"`
+	Raw       []string       `json:"raw"`   // builder.rules, 24 bytes each (before the ring rewrite)
+	Kern      []string       `json:"kern"`  // rules written to routing_map
+	RKeys     []uint32       `json:"rkeys"` // their keys
+	MetaLen   uint32         `json:"metalen"`
+	Alloc     uint32         `json:"alloc"`
+	Next      uint32         `json:"next"` // globalNextLpmIndex afterwards
+	Slots     []uint32       `json:"slots"`
+	Keys      [][]string     `json:"keys"` // per trie: struct lpm_key bytes (20 each)
+	KernErr   string         `json:"kernerr,omitempty"`
+	PortCodec string         `json:"portcodec,omitempty"` // bpfPortRange.Encode and ParsePortRange are not inverse on some range
+	Results   []c02Res       `json:"results"`
 }
 
 func c02Bytes[T any](v *T) string {
@@ -96,7 +97,7 @@ func c02Layout() map[string]int {
 	return map[string]int{
 		"ms_size": int(unsafe.Sizeof(m)), "ms_value": int(unsafe.Offsetof(m.Value)), "ms_not": int(unsafe.Offsetof(m.Not)),
 		"ms_type": int(unsafe.Offsetof(m.Type)), "ms_outbound": int(unsafe.Offsetof(m.Outbound)), "ms_must": int(unsafe.Offsetof(m.Must)),
-		"ms_mark": int(unsafe.Offsetof(m.Mark)),
+		"ms_mark":  int(unsafe.Offsetof(m.Mark)),
 		"lpm_size": int(unsafe.Sizeof(k)), "lpm_prefixlen": int(unsafe.Offsetof(k.PrefixLen)), "lpm_data": int(unsafe.Offsetof(k.Data)),
 		"dr_size": int(unsafe.Sizeof(d)), "dr_bitmap": int(unsafe.Offsetof(d.Bitmap)),
 		"pr_size": int(unsafe.Sizeof(p)), "pr_start": int(unsafe.Offsetof(p.PortStart)), "pr_end": int(unsafe.Offsetof(p.PortEnd)),
@@ -143,9 +144,9 @@ func c02Run(cs c02Case) (res c02Result) {
 			}
 			rules[i].Value = c02LiftedEncode(bpfPortRange{PortStart: c.portStart, PortEnd: c.portEnd})
 			ps, pe := c02LiftedParsePortRange(rules[i].Value[:])
-			if ps != c.portStart || pe != c.portEnd {
-				res.Stage, res.Err = "portcodec", fmt.Sprintf("ParsePortRange(Encode(%d,%d)) = (%d,%d)", c.portStart, c.portEnd, ps, pe)
-				return res
+			if (ps != c.portStart || pe != c.portEnd) && res.PortCodec == "" {
+				// not fatal here: the kernel reads these bytes next, so the probes show the consequence
+				res.PortCodec = fmt.Sprintf("ParsePortRange(Encode(%d,%d)) = (%d,%d)", c.portStart, c.portEnd, ps, pe)
 			}
 		}
 		// production BuildUserspace decodes the bytes again only when compiledRules is missing; compare the decoder anyway
@@ -194,12 +195,12 @@ func c02Run(cs c02Case) (res c02Result) {
 	} else {
 		res.Alloc = alloc
 		for i := range tries {
-			a, b := c02LiftedSlotA(alloc, i), c02LiftedSlotB(alloc, i)
-			if a != b {
-				res.Stage, res.Err = "harness", "serial and parallel slot expressions of buildRoutingKernspace differ"
-				return res
+			// buildRoutingKernspace: serial conversion when lpmCount < 4 (or a single CPU), parallel otherwise
+			slot := c02LiftedSlotPar(alloc, i)
+			if lpmCount < 4 {
+				slot = c02LiftedSlotSer(alloc, i)
 			}
-			res.Slots = append(res.Slots, a)
+			res.Slots = append(res.Slots, slot)
 		}
 		if rules[len(rules)-1].Type != uint8(consts.MatchType_Fallback) {
 			res.KernErr = "fallback rule MUST be the last"
